@@ -15,3 +15,5 @@ open Fzf.Props.C15
 #print axioms C15_prompt_shows_query
 #print axioms C15_info_shows_counts
 #print axioms C15_max_min_are_source
+#print axioms C15_hidden_input_rows
+#print axioms C15_shown_input_first_row
